@@ -522,6 +522,7 @@ fn encoder_variant_table() -> Vec<(u32, String)> {
 
 /// Execute one op on the implementation; oracle clauses are evaluated here.
 pub fn exec(op: &str, out: &mut Out) -> String {
+    let _crumb = crate::common::crumb::guard(op);
     let w: Vec<&str> = op.split(' ').collect();
     match w.as_slice() {
         ["codec", "new"] => "ok".into(),
@@ -575,9 +576,31 @@ pub fn exec(op: &str, out: &mut Out) -> String {
             }
             a
         }
+        ["codec", "dsval", h] => {
+            // a DataSet metric value of ANY structure (content is not modelled: the model answers `ok`; the
+            // line exists so that the request replays): datatype-directed decoding must end in a value or an
+            // error, without a panic and without reserving memory out of proportion to the input
+            use prost::Message as _;
+            let bytes = unhex(h);
+            if let Ok(ds) = DataSet::decode(bytes.as_slice()) {
+                let mv = MetricValue(metric::Value::DatasetValue(ds));
+                let (r, max_req, _sum) = crate::common::crumb::watch(|| catch(move || MetricValueKind::try_from_metric_value(DataType::DataSet, mv).is_ok()));
+                match r {
+                    Err(m) => out.fail("C19:no-panic", "dataset", format!("{} panicked: {}", op, m)),
+                    Ok(okv) => out.count(if okv { "dsval:value" } else { "dsval:error" }),
+                }
+                if max_req > (1 << 20) + 64 * bytes.len() {
+                    out.fail("C19:alloc-bound", "dataset", format!("{}: a single allocation of {} bytes for {} input bytes", op, max_req, bytes.len()));
+                }
+            }
+            "ok".into()
+        }
         ["codec", "kind", dt, variant, field] => {
             let code: u32 = dt.parse().unwrap();
-            let (a, name) = kind(code, variant, field);
+            let ((a, name), max_req, _sum) = crate::common::crumb::watch(|| kind(code, variant, field));
+            if max_req > (1 << 20) + 64 * op.len() {
+                out.fail("C19:alloc-bound", "kind", format!("{}: a single allocation of {} bytes", op, max_req));
+            }
             if a == "panic" {
                 out.fail("C19:no-panic", "kind", format!("{} panicked", op));
             }
@@ -797,7 +820,57 @@ fn variants_for(w: &str) -> Vec<(&'static str, Vec<&'static str>)> {
     v
 }
 
-pub const RULE: &str = "scalars: every value of the 8-bit types and (quick: every 7th, thorough: every) value of the 16-bit types x 4 wrapper kinds, boundary/special/random bit patterns of the wider types incl. NaN payloads, infinities, subnormals; wrapper->type decode of every variant x boundary field for all 13 types x 4 wrappers (exhaustive table); arrays: every length 0..=64 per element type with random contents, every boolean list up to length Lb (exhaustive), random long arrays; array decoders: every byte string of length <= Le (exhaustive) into all 13 decoders, plus all strings of length <= 6 over {00,01,07,08,09,80,FF}-style alphabets (thorough), structured boolean-array inputs (count x data length), random/mutated inputs with counts larger/smaller than the data and trailing bytes; datatype-directed decoding: all 35 datatypes x every variant sample (exhaustive table) plus valid encodings. Non-trivial = the op sequence contains a non-empty value; distinct = distinct op lines (hashed).";
+pub const RULE: &str = "scalars: every value of the 8-bit types and (quick: every 7th, thorough: every) value of the 16-bit types x 4 wrapper kinds, boundary/special/random bit patterns of the wider types incl. NaN payloads, infinities, subnormals; wrapper->type decode of every variant x boundary field for all 13 types x 4 wrappers (exhaustive table); arrays: every length 0..=64 per element type with random contents, every boolean list up to length Lb (exhaustive), random long arrays; array decoders: every byte string of length <= Le (exhaustive) into all 13 decoders, plus all strings of length <= 6 over {00,01,07,08,09,80,FF}-style alphabets (thorough), structured boolean-array inputs (count x data length), random/mutated inputs with counts larger/smaller than the data and trailing bytes; datatype-directed decoding: all 35 datatypes x every variant sample (exhaustive table) plus valid encodings; DataSet metric values of any structure (declared column counts 0..u64::MAX x 0..=3 actual columns, unknown type codes, inconsistent rows; direct oracles: no panic, no abort, allocation bound). Non-trivial = the op sequence contains a non-empty value; distinct = distinct op lines (hashed).";
+
+/// structure-aware DataSet messages: declared column counts from 0 to u64::MAX against 0..4 actual columns,
+/// type codes valid / unknown / huge, rows whose element counts and variants match or do not
+fn dataset_cases(rng: &mut Rng, n_random: u64) -> Vec<String> {
+    use prost::Message as _;
+    use srad_types::payload::data_set::{DataSetValue as PDsv, Row};
+    let counts: [Option<u64>; 20] = [
+        None, Some(0), Some(1), Some(2), Some(3), Some(4), Some(7), Some(255), Some(65536), Some(1 << 31), Some((1 << 32) - 1),
+        Some(1 << 32), Some(1 << 40), Some(1 << 53), Some(1 << 60), Some(1 << 61), Some(1 << 62), Some(1 << 63),
+        Some(u64::MAX - 1), Some(u64::MAX),
+    ];
+    let type_codes: [u32; 12] = [0, 1, 3, 4, 8, 9, 10, 11, 12, 13, 35, u32::MAX];
+    let elem = |rng: &mut Rng| -> PDsv {
+        PDsv {
+            value: match rng.below(9) {
+                0 => Some(data_set_value::Value::IntValue(rng.next() as u32)),
+                1 => Some(data_set_value::Value::LongValue(rng.next())),
+                2 => Some(data_set_value::Value::FloatValue(f32::from_bits(rng.next() as u32))),
+                3 => Some(data_set_value::Value::DoubleValue(f64::from_bits(rng.next()))),
+                4 => Some(data_set_value::Value::BooleanValue(rng.chance(1, 2))),
+                5 => Some(data_set_value::Value::StringValue("s".repeat(rng.below(4) as usize))),
+                6 => Some(data_set_value::Value::ExtensionValue(Default::default())),
+                _ => None,
+            },
+        }
+    };
+    let mut v = vec![];
+    let mut mk = |rng: &mut Rng, c: Option<u64>, ncols: usize, ntypes: usize, nrows: usize, consistent: bool| {
+        let types: Vec<u32> = (0..ntypes).map(|_| *rng.pick(&type_codes)).collect();
+        let rows = (0..nrows)
+            .map(|_| Row { elements: (0..if consistent { ncols } else { rng.below(5) as usize }).map(|_| elem(rng)).collect() })
+            .collect();
+        let ds = DataSet { num_of_columns: c, columns: (0..ncols).map(|i| format!("c{}", i)).collect(), types, rows };
+        format!("codec dsval {}", hex(&ds.encode_to_vec()))
+    };
+    // every declared count x every actual column count 0..=3, consistent and not
+    for c in counts {
+        for ncols in 0..=3usize {
+            v.push(mk(rng, c, ncols, ncols, 2, true));
+            v.push(mk(rng, c, ncols, (ncols + 1) % 4, 1, false));
+        }
+    }
+    for _ in 0..n_random {
+        let c = if rng.chance(1, 2) { *rng.pick(&counts) } else { Some(rng.below(6)) };
+        let (ncols, ntypes, nrows) = (rng.below(5) as usize, rng.below(5) as usize, rng.below(4) as usize);
+        let consistent = rng.chance(1, 2);
+        v.push(mk(rng, c, ncols, ntypes, nrows, consistent));
+    }
+    v
+}
 
 pub fn run(args: &Args, out: &mut Out) -> &'static str {
     let mut rng = Rng::new(args.seed);
@@ -1025,6 +1098,14 @@ pub fn run(args: &Args, out: &mut Out) -> &'static str {
         };
         case(out, &[op], true, "kind-random");
     }
+    // --- DataSet metric values of any structure (own PRNG stream: the cases above keep theirs) ---
+    let mut drng = Rng::new(args.seed ^ 0xD5D5);
+    let ops = dataset_cases(&mut drng, if th { 20000 } else { 1500 });
+    let n = ops.len() as u64;
+    for chunk in ops.chunks(200) {
+        case(out, chunk, true, "dataset-batches");
+    }
+    out.count_n("dataset:cases", n);
     RULE
 }
 
